@@ -339,14 +339,20 @@ def shared_definition(ctx, sut, serial, default_a, default_b):
         ctx.witness("default_shared_between_positions", case, "; ".join(problems))
 
 
-def twin_objects(ctx, sut, serial, default, spelling, plain_first):
+VACUOUS_NEIGHBOURS = [{}, {"allOf": [{}]}, {"anyOf": [True]}, {"oneOf": [{}]}, {"required": []}, {"allOf": [{}], "anyOf": [{}]}]
+
+
+def twin_objects(ctx, sut, serial, default, spelling, plain_first, neighbour=None):
     """Two object schemas with the same title and the same body; exactly one of them declares a default
     (with `type` spelled as a string or as a one-element list).  The default belongs to that one only -
     whichever of the two the parser meets first."""
     body = {"title": f"Twin{serial}", "properties": {"v": {"type": "integer"}}}
     plain = {"type": "object", **copy.deepcopy(body)}
     holder = {"type": ["object"] if spelling == "list" else "object", **copy.deepcopy(body),
-              "default": copy.deepcopy(default)}
+              "default": copy.deepcopy(default), **copy.deepcopy(neighbour or {})}
+    if neighbour:
+        # keywords that constrain nothing next to the default (a composition which collapses)
+        ctx.count("twins.vacuous_neighbour")
     props = {"p": plain, "q": holder} if plain_first else {"q": holder, "p": plain}
     doc = {"type": "object", "title": f"TwinRoot{serial}", "properties": props}
     case = {"shape": "twin_objects", "schema": copy.deepcopy(doc)}
@@ -544,6 +550,9 @@ def run_shard(ctx):
                 if (idx * 4 + (spelling == "list") * 2 + plain_first) % ctx.nshards == ctx.shard:
                     serial += 1
                     twin_objects(ctx, sut, serial, default, spelling, plain_first)
+                    serial += 1
+                    twin_objects(ctx, sut, serial, default, spelling, plain_first,
+                                 VACUOUS_NEIGHBOURS[(idx + plain_first) % len(VACUOUS_NEIGHBOURS)])
     if ctx.shard == 0:
         serial += 1
         annotation_key_literals(ctx, sut, serial)
